@@ -135,6 +135,13 @@ def helper_contract():
         rows = result.fields.get('simulation_result')
         if getattr(rows, 'allnan', False):
             ex.oblige('post', tm.not_(last['ok']), label='all-nan-only-on-failure')
+            # "solves the model's rate equations": giving up (an all-NaN result) is allowed only after the integrator was offered the FULL step
+            # budget the simulator is configured with (self.mxstep) - seed C04-d never tried the last rung of the retry ladder
+            mx = (last.get('kwargs') or {}).get('mxstep')
+            budget = ex.get_field(fr.env['self'], 'mxstep')
+            ok = mx is not None and budget is not None
+            ex.oblige('post', tm.eq(to_term(mx), to_term(budget)) if ok else tm.FALSE, label='gives-up-only-after-the-full-step-budget',
+                      note='last attempt ran with mxstep=%r, configured budget %r' % (mx, budget))
             return
         ex.oblige('post', last['ok'], label='numbers-only-on-success', note='a failed integration is never returned as finite numbers')
         m = ex.fresh('row', INT)
